@@ -355,3 +355,168 @@ Proof.
   pose proof (resolution_root_spec (g_A g) l Hlp Hll) as S.
   unfold resolution_with_root in S. tauto.
 Qed.
+
+(** * (iii) contracts of the view operations *)
+Definition same_tags (g g' : geobox) : Prop :=
+  g_ny g' = g_ny g /\ g_nx g' = g_nx g /\ g_crs g' = g_crs g.
+
+Ltac zq := rewrite ?Zq_plus, ?Zq_minus, ?Zq_mult, ?Zq_opp.
+Ltac unf := unfold pix2wld, translate_pix, gmul, grmul, apply, amul, atrans, ascale, peq; cbn [g_A g_ny g_nx g_crs aa ab ac ad ae af fst snd].
+
+Lemma gmul_contract g T p :
+  peq (pix2wld (gmul g T) p) (pix2wld g (apply T p)) /\ same_tags g (gmul g T).
+Proof. split; [apply apply_mul | repeat split]. Qed.
+
+Lemma grmul_contract T g p :
+  peq (pix2wld (grmul T g) p) (apply T (pix2wld g p)) /\ same_tags g (grmul T g).
+Proof. split; [apply apply_mul | repeat split]. Qed.
+
+Lemma translate_pix_contract g tx ty p :
+  peq (pix2wld (translate_pix g tx ty) p) (pix2wld g (fst p + tx, snd p + ty)) /\
+  same_tags g (translate_pix g tx ty).
+Proof. split; [unf; split; ring | repeat split]. Qed.
+
+Lemma pad_contract g padx pady p :
+  let py := fill pady padx in
+  let g' := pad g padx pady in
+  peq (pix2wld g' p) (pix2wld g (fst p - Zq padx, snd p - Zq py)) /\
+  g_ny g' = (g_ny g + py * 2)%Z /\ g_nx g' = (g_nx g + padx * 2)%Z /\ g_crs g' = g_crs g.
+Proof.
+  cbv zeta. split; [|repeat split].
+  unfold pad. unf. zq. split; ring.
+Qed.
+
+Lemma pad_covers g padx pady : (0 <= padx)%Z -> (0 <= fill pady padx)%Z -> covers g (pad g padx pady).
+Proof.
+  intros Hx Hy.
+  apply covers_by_map with (f := fun p => (fst p + Zq padx, snd p + Zq (fill pady padx))).
+  intros p (X0 & X1 & Y0 & Y1). apply Zq_le in Hx, Hy. change (Zq 0) with 0 in *. split.
+  - unfold in_rect, pad; cbn [g_ny g_nx fst snd]. zq. change (Zq 2) with 2. repeat split; lra.
+  - unfold pad. unf. zq. split; ring.
+Qed.
+
+Lemma pad_wh_contract g ax ay : (1 <= ax)%Z -> (1 <= fill ay ax)%Z ->
+  let g' := pad_wh g ax ay in
+  g_A g' = g_A g /\ g_crs g' = g_crs g /\
+  (g_nx g <= g_nx g' < g_nx g + ax)%Z /\ (g_nx g' mod ax = 0)%Z /\
+  (g_ny g <= g_ny g' < g_ny g + fill ay ax)%Z /\ (g_ny g' mod (fill ay ax) = 0)%Z /\
+  covers g g'.
+Proof.
+  intros Hx Hy. cbv zeta. unfold pad_wh; cbn [g_A g_ny g_nx g_crs].
+  destruct (align_up_spec (g_nx g) ax ltac:(lia)) as (X1 & X2 & X3).
+  destruct (align_up_spec (g_ny g) (fill ay ax) ltac:(lia)) as (Y1 & Y2 & Y3).
+  repeat split; try lia.
+  apply covers_by_map with (f := fun p => p).
+  intros p (A0 & A1 & B0 & B1). split; [|reflexivity].
+  unfold in_rect; cbn [g_ny g_nx]. apply Zq_le in X2, Y2. repeat split; lra.
+Qed.
+
+Lemma crop_contract g ny nx :
+  let g' := crop g ny nx in
+  g_A g' = g_A g /\ g_ny g' = ny /\ g_nx g' = nx /\ g_crs g' = g_crs g /\
+  (forall p, pix2wld g' p = pix2wld g p).
+Proof. cbv zeta. repeat split. Qed.
+
+Lemma flipx_contract g p :
+  peq (pix2wld (flipx g) p) (pix2wld g (Zq (g_nx g) - fst p, snd p)) /\ same_tags g (flipx g).
+Proof. split; [unfold flipx; unf; split; ring | repeat split]. Qed.
+
+Lemma flipy_contract g p :
+  peq (pix2wld (flipy g) p) (pix2wld g (fst p, Zq (g_ny g) - snd p)) /\ same_tags g (flipy g).
+Proof. split; [unfold flipy; unf; split; ring | repeat split]. Qed.
+
+Lemma flipx_same_footprint g : covers g (flipx g) /\ covers (flipx g) g.
+Proof.
+  split; apply covers_by_map with (f := fun p => (Zq (g_nx g) - fst p, snd p));
+    intros p (X0 & X1 & Y0 & Y1); (split; [unfold in_rect in *; cbn [g_ny g_nx flipx gmul fst snd] in *;
+      repeat split; lra | unfold flipx; unf; split; ring]).
+Qed.
+
+Lemma flipy_same_footprint g : covers g (flipy g) /\ covers (flipy g) g.
+Proof.
+  split; apply covers_by_map with (f := fun p => (fst p, Zq (g_ny g) - snd p));
+    intros p (X0 & X1 & Y0 & Y1); (split; [unfold in_rect in *; cbn [g_ny g_nx flipy gmul fst snd] in *;
+      repeat split; lra | unfold flipy; unf; split; ring]).
+Qed.
+
+Lemma flip_matrix_x n : aeq (amul (amul (atrans n 0) (ascale (-1) 1)) (amul (atrans n 0) (ascale (-1) 1))) aid.
+Proof. unfold amul, atrans, ascale, aeq, aid; simpl. repeat split; ring. Qed.
+
+Lemma flip_matrix_y n : aeq (amul (amul (atrans 0 n) (ascale 1 (-1))) (amul (atrans 0 n) (ascale 1 (-1)))) aid.
+Proof. unfold amul, atrans, ascale, aeq, aid; simpl. repeat split; ring. Qed.
+
+Lemma flipx_involutive g : aeq (g_A (flipx (flipx g))) (g_A g).
+Proof.
+  unfold flipx at 1. unfold gmul at 1. cbn [g_A].
+  change (g_nx (flipx g)) with (g_nx g). unfold flipx, gmul; cbn [g_A].
+  rewrite amul_assoc, flip_matrix_x. apply amul_id_r.
+Qed.
+
+Lemma flipy_involutive g : aeq (g_A (flipy (flipy g))) (g_A g).
+Proof.
+  unfold flipy at 1. unfold gmul at 1. cbn [g_A].
+  change (g_ny (flipy g)) with (g_ny g). unfold flipy, gmul; cbn [g_A].
+  rewrite amul_assoc, flip_matrix_y. apply amul_id_r.
+Qed.
+
+Lemma neighbours_contract g p :
+  peq (pix2wld (gleft g) p) (pix2wld g (fst p - Zq (g_nx g), snd p)) /\
+  peq (pix2wld (gright g) p) (pix2wld g (fst p + Zq (g_nx g), snd p)) /\
+  peq (pix2wld (gtop g) p) (pix2wld g (fst p, snd p - Zq (g_ny g))) /\
+  peq (pix2wld (gbottom g) p) (pix2wld g (fst p, snd p + Zq (g_ny g))) /\
+  same_tags g (gleft g) /\ same_tags g (gright g) /\ same_tags g (gtop g) /\ same_tags g (gbottom g).
+Proof.
+  unfold gleft, gright, gtop, gbottom.
+  repeat split; unf; zq; ring.
+Qed.
+
+(** the neighbours share an edge with the original and undo each other *)
+Lemma neighbours_adjacent g t :
+  peq (pix2wld (gleft g) (Zq (g_nx g), t)) (pix2wld g (0, t)) /\
+  peq (pix2wld (gright g) (0, t)) (pix2wld g (Zq (g_nx g), t)) /\
+  peq (pix2wld (gtop g) (t, Zq (g_ny g))) (pix2wld g (t, 0)) /\
+  peq (pix2wld (gbottom g) (t, 0)) (pix2wld g (t, Zq (g_ny g))) /\
+  aeq (g_A (gright (gleft g))) (g_A g) /\ aeq (g_A (gbottom (gtop g))) (g_A g).
+Proof.
+  unfold gleft, gright, gtop, gbottom.
+  repeat split; unf; unfold aeq; cbn [aa ab ac ad ae af]; zq; try ring.
+  all: repeat split; ring.
+Qed.
+
+(** rotation about the centre *)
+Lemma rotate_contract g c s p :
+  let C := center_world g in
+  let g' := rotate g c s in
+  peq (pix2wld g' p)
+      (fst C + (c * (fst (pix2wld g p) - fst C) - s * (snd (pix2wld g p) - snd C)),
+       snd C + (s * (fst (pix2wld g p) - fst C) + c * (snd (pix2wld g p) - snd C))) /\
+  peq (pix2wld g' (Zq (g_nx g) * (1 # 2), Zq (g_ny g) * (1 # 2))) C /\
+  same_tags g g' /\
+  adet (g_A g') == (c * c + s * s) * adet (g_A g).
+Proof.
+  cbv zeta. unfold rotate. split; [|split; [|split]].
+  - destruct (grmul_contract (arot_about c s (center_world g)) g p) as [H _].
+    rewrite H. apply arot_about_disp.
+  - destruct (grmul_contract (arot_about c s (center_world g)) g
+                (Zq (g_nx g) * (1 # 2), Zq (g_ny g) * (1 # 2))) as [H _].
+    rewrite H. apply arot_about_fix.
+  - repeat split.
+  - unfold grmul; cbn [g_A]. rewrite adet_mul, adet_rot_about. reflexivity.
+Qed.
+
+(** for a genuine rotation (c^2 + s^2 = 1) distances between pixel locations are preserved *)
+Definition dist2 (u v : pt) : Q := (fst u - fst v) * (fst u - fst v) + (snd u - snd v) * (snd u - snd v).
+
+Lemma rotate_isometry g c s p q : c * c + s * s == 1 ->
+  dist2 (pix2wld (rotate g c s) p) (pix2wld (rotate g c s) q) == dist2 (pix2wld g p) (pix2wld g q).
+Proof.
+  intros H.
+  destruct (rotate_contract g c s p) as ([P1 P2] & _).
+  destruct (rotate_contract g c s q) as ([Q1 Q2] & _).
+  unfold dist2. rewrite P1, P2, Q1, Q2. cbn [fst snd].
+  set (x1 := fst (pix2wld g p)). set (y1 := snd (pix2wld g p)).
+  set (x2 := fst (pix2wld g q)). set (y2 := snd (pix2wld g q)).
+  set (cx := fst (center_world g)). set (cy := snd (center_world g)).
+  transitivity ((c * c + s * s) * ((x1 - x2) * (x1 - x2) + (y1 - y2) * (y1 - y2))); [ring|].
+  rewrite H. ring.
+Qed.
